@@ -57,7 +57,11 @@ def resow_other_n(rep, count):
     rnd.shuffle(combos_list)
     for n, mode, val in combos_list[:count]:
         bs = val if mode == "size" else max(1, n // min(n, val))
-        for n2 in sorted({n - 1, n + 1, n - bs, n + bs} - {n}):
+        # another number of settings; or the same settings with other batching given to the sow call
+        val2s = sorted({val - 1, val + 1, val + 2, 2 * val} - {val})
+        for n2, kw2 in [(m, {}) for m in sorted({n - 1, n + 1, n - bs, n + bs} - {n})] + \
+                [(n, {("batchsize" if mode == "size" else "num_batches"): v2}) for v2 in val2s if v2 >= 1] + \
+                [(n, {("num_batches" if mode == "size" else "batchsize"): 2})]:
             if n2 < 1:
                 continue
             for reloaded in (False, True):
@@ -69,10 +73,10 @@ def resow_other_n(rep, count):
                     c.sow_combos({"a": list(range(n))}, verbosity=0)
                     if reloaded:
                         c = xyz.Crop(fn=fn, name="r", parent_dir=tmp)
-                    case = dict(kind="resow_other_n", n=n, mode=mode, val=val, n2=n2, reloaded=reloaded)
-                    rep.add_case(["resow_other_n", n, mode, val, n2, reloaded], sample=None)
+                    case = dict(kind="resow_other_n", n=n, mode=mode, val=val, n2=n2, reloaded=reloaded, sow_kw=kw2)
+                    rep.add_case(["resow_other_n", n, mode, val, n2, reloaded, sorted(kw2.items())], sample=None)
                     try:
-                        c.sow_combos({"a": list(range(n2))}, verbosity=0)
+                        c.sow_combos({"a": list(range(n2))}, verbosity=0, **kw2)
                     except ValueError:
                         continue          # refused: fine
                     B = c.num_batches
@@ -92,8 +96,9 @@ def resow_other_n(rep, count):
                         if prob is None and sorted(got) != list(range(n2)):
                             prob = "the batches hold the settings %r, the sow was for %r" % (sorted(got), list(range(n2)))
                     if prob:
-                        rep.add_violation(case, "sow of %d settings (%s=%d), then an accepted re-sow of %d settings%s: %s" % (
-                            n, mode, val, n2, " from a reloaded crop" if reloaded else "", prob), key=dict(tag="resow_other_n", mode=mode))
+                        rep.add_violation(case, "sow of %d settings (%s=%d), then an accepted re-sow of %d settings%s%s: %s" % (
+                            n, mode, val, n2, (" with %r given to the sow call" % (kw2,)) if kw2 else "",
+                            " from a reloaded crop" if reloaded else "", prob), key=dict(tag="resow_other_n", mode=mode))
                 finally:
                     shutil.rmtree(tmp, ignore_errors=True)
 
@@ -125,4 +130,5 @@ def replay(rep, saved):
     if saved.get("kind") == "resow_other_n":
         resow_other_n(rep, 77)
         return
-    crop.replay_saved(rep, saved)
+    crop.replay_saved(rep, saved, claims=lambda tag: tag in ("batches", "numbers", "outcome_sow", "outcome_reload", "obs_sow", "obs_reload",
+                                                     "dir_sow", "dir_reload", "outcome_resow", "obs_resow", "dir_resow"))
